@@ -7,7 +7,7 @@ Drivers:
   * sync / async front-ends are built by the checks on top of `AgentThread` /
     asyncio protocol using the same pure functions.
 """
-import os
+import hashlib
 import socket
 import threading
 
@@ -148,7 +148,8 @@ def decode_request(cfg, dgram, engine_id=None, strict=True):
 def build_reply(cfg, req, varbinds, pdu_tag=rb.PDU_RESPONSE, request_id=None, error_status=0, error_index=0,
                 community=None, version=None, msg_id=None, user=None, engine_id=None, boots=None, time=None,
                 flags=None, mac="valid", encrypt=None, salt=None, pad_bytes=None, ctx_engine_id=None,
-                max_size=65507, sec_model=3, forms=None):
+                max_size=65507, sec_model=3, forms=None, raw_pdu=None, raw_scoped=None, priv_params=None,
+                auth_params=None):
     """Build a reply to parsed request `req`.
 
     varbinds: list of already encoded varbind TLVs (refber.varbind).
@@ -159,6 +160,8 @@ def build_reply(cfg, req, varbinds, pdu_tag=rb.PDU_RESPONSE, request_id=None, er
     forms = forms or {}
     rid = req["request_id"] if request_id is None else request_id
     p = rb.pdu(pdu_tag, rid, error_status, error_index, varbinds, forms.get("pdu", 0), forms.get("vbl", 0))
+    if raw_pdu is not None:
+        p = raw_pdu
     if cfg.version in ("v1", "v2c"):
         ver = {"v1": 0, "v2c": 1}[cfg.version] if version is None else version
         comm = cfg.community.encode() if community is None else community
@@ -170,16 +173,20 @@ def build_reply(cfg, req, varbinds, pdu_tag=rb.PDU_RESPONSE, request_id=None, er
     u = cfg.user.encode() if user is None else user
     mid = req["msg_id"] if msg_id is None else msg_id
     ceid = eid if ctx_engine_id is None else ctx_engine_id
-    scoped = rb.scoped_pdu(ceid, b"", p)
+    scoped = rb.scoped_pdu(ceid, b"", p) if raw_scoped is None else raw_scoped
     do_enc = (cfg.priv is not None) if encrypt is None else encrypt
     do_auth = cfg.auth is not None and mac != "absent"
     if flags is None:
         flags = (1 if (cfg.auth is not None and mac != "absent") else 0) | (2 if do_enc else 0)
-    priv_params = b""
+    if priv_params is None and not do_enc:
+        priv_params = b""
     if do_enc:
         kul = cfg.kul_priv(eid)
-        s = os.urandom(8) if salt is None else salt
-        priv_params = s
+        s = hashlib.sha256(scoped).digest()[:8] if salt is None else salt
+        if priv_params is None:
+            priv_params = s
+        elif len(priv_params) == 8:
+            s = bytes(priv_params)
         if cfg.priv == "des":
             plain = scoped
             padn = (-len(plain)) % 8
@@ -190,6 +197,11 @@ def build_reply(cfg, req, varbinds, pdu_tag=rb.PDU_RESPONSE, request_id=None, er
             data = rb.tlv(rb.T_OCTETS, ru.usm_aes_encrypt(kul, b, t, s[:8].ljust(8, b"\0"), plain))
     else:
         data = scoped
+    if priv_params is not None:
+        priv_params = bytes(priv_params)
+    if auth_params is not None:
+        usm = rb.usm_params(eid, b, t, u, bytes(auth_params), priv_params)
+        return rb.msg_v3(mid, max_size, flags, sec_model, usm, data, forms.get("msg", 0))
     if cfg.auth is None or mac == "absent":
         ap = b""
     elif mac == "short":
@@ -200,7 +212,7 @@ def build_reply(cfg, req, varbinds, pdu_tag=rb.PDU_RESPONSE, request_id=None, er
     msg = rb.msg_v3(mid, max_size, flags, sec_model, usm, data, forms.get("msg", 0))
     if ap and len(ap) == 12:
         kula = cfg.kul_auth(eid)
-        m = rb.parse_message(msg, strict=False)
+        m = rb.parse_message(msg, strict=False, data=False)
         s0, s1 = m["auth_span"]
         good = ru.hmac96(cfg.auth, kula, msg)
         if mac == "valid":
@@ -208,9 +220,7 @@ def build_reply(cfg, req, varbinds, pdu_tag=rb.PDU_RESPONSE, request_id=None, er
         elif mac == "zero":
             tag = b"\x00" * 12
         elif mac == "random":
-            tag = os.urandom(12)
-            if tag == good:
-                tag = bytes([tag[0] ^ 1]) + tag[1:]
+            tag = hashlib.sha256(b"random-mac" + good).digest()[:12]
         elif mac == "bitflip":
             tag = bytes([good[0] ^ 0x01]) + good[1:]
         elif isinstance(mac, (bytes, bytearray)):
@@ -233,7 +243,7 @@ def build_report(cfg, req, engine_id, boots, time, counter_oid=(1, 3, 6, 1, 6, 3
     if auth and cfg.auth:
         usm = rb.usm_params(engine_id, boots, time, u, b"\0" * 12, b"")
         msg = rb.msg_v3(mid, 65507, 1, 3, usm, scoped)
-        m = rb.parse_message(msg, strict=False)
+        m = rb.parse_message(msg, strict=False, data=False)
         s0, s1 = m["auth_span"]
         return msg[:s0] + ru.hmac96(cfg.auth, cfg.kul_auth(engine_id), msg) + msg[s1:]
     usm = rb.usm_params(engine_id, boots, time, u, b"", b"")
@@ -296,12 +306,12 @@ class AgentThread(threading.Thread):
         self.sock.settimeout(0.05)
         self.port = self.sock.getsockname()[1]
         self.handler = handler
-        self._stop = threading.Event()
+        self._halt = threading.Event()
         self.errors = []
         self.received = []
 
     def run(self):
-        while not self._stop.is_set():
+        while not self._halt.is_set():
             try:
                 d, a = self.sock.recvfrom(65535)
             except socket.timeout:
@@ -316,6 +326,6 @@ class AgentThread(threading.Thread):
                 self.errors.append(repr(e))
 
     def stop(self):
-        self._stop.set()
+        self._halt.set()
         self.join(timeout=2)
         self.sock.close()
